@@ -191,12 +191,11 @@ Proof.
   destruct (h_open _ _ _ _) as [a0 ev3]. destruct (hf_open_new _) as [h0 ev4].
   destruct (merge_files _ d1 order _ _) as [[d2 res] ev5] eqn:Hmf.
   pose proof (merge_files_counters _ _ _ _ _ _ _ _ Hmf) as Hs2.
-  assert (Hd : d' = d2).
-  { destruct res as [ms|er ms].
-    - destruct (hf_close _ _) as [h1 ev6]. destruct (h_close _ _ _) as [a1 ev7]. destruct (ms_close_older _ _) as [o1 ev8].
-      injection H as <- _ _ _. reflexivity.
-    - injection H as <- _ _ _. reflexivity. }
-  rewrite Hd. exact (Acc_same d d2 (same_counters_trans _ _ _ Hs1 Hs2) HA).
+  pose proof (Acc_same d d2 (same_counters_trans _ _ _ Hs1 Hs2) HA) as HA2.
+  destruct res as [ms|er ms].
+  - destruct (hf_close _ _) as [h1 ev6]. destruct (h_close _ _ _) as [a1 ev7]. destruct (ms_close_older _ _) as [o1 ev8].
+    unfold db_sync in H. destruct (h_sync _ _) as [a ev]. injection H as <- _ _ _. exact HA2.
+  - injection H as <- _ _ _. exact HA2.
 Qed.
 
 (* recovery starts from zero and replays with the same accounting *)
